@@ -273,7 +273,7 @@ def eval_line(entry: str, prog: str, args, ctx=None, fuel=4000) -> str:
 
 PY_ERRS = {'NameError': 'Unbound', 'UnboundLocalError': 'Unbound'}
 
-def run_real(fn, args, ctx=None, timeout_s=5) -> str:
+def run_real(fn, args, ctx=None, timeout_s=2) -> str:
     """call the real function; canonical result line"""
     import signal, copy
     def on_alarm(signum, frame): raise TimeoutError('timeout')
